@@ -294,7 +294,7 @@ def corr_plan(tier, seed):
     profiles = ['lifecycle', 'money', 'quota', 'authz', 'gov', 'govdelay', 'extreme', 'genesis', 'sessions']
     plan = []
     # the session-settlement paths need several settled sessions on one subscription: more seeds there
-    per = (lambda p: 6 if p == 'sessions' else 2) if tier == 'quick' else (lambda p: 24 if p == 'sessions' else 12)
+    per = (lambda p: {'sessions': 6, 'genesis': 4}.get(p, 2)) if tier == 'quick' else (lambda p: {'sessions': 24, 'genesis': 20}.get(p, 12))
     blocks = 90 if tier == 'quick' else 300
     step = 10 if tier == 'quick' else 100
     for i, p in enumerate(profiles):
@@ -506,6 +506,26 @@ def section_relevant(prop, m):
     return any(any(s == p or s.startswith(p) for p in proj) for s in secs)
 
 
+def concrete_failure(prop, m):
+    """Is this disagreement, by itself, a concrete input on which the property fails on the
+    implementation?  Only where the model's answer is the property's specification (theorems of
+    Props/<prop>) and the direction of the disagreement contradicts the property."""
+    op = m.get('op') or ''
+    if op.startswith('query') and prop in ('C13', 'C09'):
+        # the model's answer to a listing is filter + page of the stored records (Props/C13, C09)
+        return True
+    wrongly_accepted = m.get('kind') == 'result' and (m.get('impl') or '').startswith('accept') and (m.get('model') or '').startswith('reject')
+    if prop in ('C07', 'C08', 'C14') and wrongly_accepted:
+        # accepted => authorised / admissible (Props/C07, C08, C14) holds of the model; the implementation accepted
+        return True
+    if prop == 'C11' and wrongly_accepted and any(k in op for k in ('nodeRegister', 'nodeUpdate', 'nodeSubscribe')):
+        return True
+    if prop == 'C15' and (op.startswith('mintprobe') or (m.get('kind') == 'state' and all(x in ('custommint', 'sdkmint') for x in m.get('sections', ['?'])))):
+        # the model's parameters after BeginBlock are those of the latest due entry (Props/C15)
+        return True
+    return False
+
+
 def check_property(prop, tier, seed):
     t0 = time.time()
     P = PROPS[prop]
@@ -569,9 +589,7 @@ def check_property(prop, tier, seed):
         violations.append(('proof obligation no longer checks after regeneration', {'tie': 'lake build Hub.Props.' + prop, 'detail': build_broken}))
     for m in rel[:3]:
         body = {'tie': 'T-corr', 'mismatch': m}
-        if (m.get('op') or '').startswith('query') and prop in ('C13', 'C09'):
-            # the model's answer to a listing is the specification (filter + page of the stored records,
-            # Props/C13): a different answer of the implementation is a concrete failing request
+        if concrete_failure(prop, m):
             body['failing_input'] = m['op']
         violations.append(('correspondence broken: %s at op %d of %s seed %d' % (m['kind'], m['index'], m['profile'], m['seed']), body))
     for h in corr['monitor_hits']:
@@ -783,6 +801,18 @@ def run_probe19(tier, seed, th):
         if not res['violations']:
             os.remove(lines_path)
             os.remove(model_path)
+    # the parameter-store channel: SetParams (ParamSetPairs, one amino-JSON value per key) then GetParams
+    p = subprocess.run([os.path.join(BIN, 'hubsim'), 'paramrt', '-seed', str(seed), '-n', '200' if tier == 'quick' else '5000'],
+                       stdout=subprocess.PIPE, stderr=subprocess.PIPE, timeout=3600)
+    if p.returncode != 0:
+        raise Broken('paramrt failed: ' + p.stderr.decode(errors='replace')[-500:])
+    res['param_store_roundtrips'] = 0
+    for l in p.stdout.decode(errors='replace').split('\n'):
+        if l.startswith('prt '):
+            res['param_store_roundtrips'] += 1
+            res['evaluations'] += 1
+            if ' MISMATCH ' in l and len(res['violations']) < 5:
+                res['violations'].append({'msg': 'parameter set changed by the store round trip (SetParams then GetParams)', 'failing_input': l[:800]})
     res['distinct'] = len(types)
     json.dump(res, open(summ, 'w'), indent=1)
     return res
